@@ -37,6 +37,7 @@ def check(ctx: Ctx) -> None:
     owner_token_unique(ctx)
     lock_dir_private(ctx)
     lock_identity_canonical(ctx)
+    fallback_break_only_when_stale(ctx)
 
 
 def lock_dir_private(ctx: Ctx, rid: str = "C19.R9") -> None:
@@ -94,6 +95,32 @@ def lock_identity_canonical(ctx: Ctx, rid: str = "C19.R10") -> None:
                    "the lock's identity is the canonical location" if hit else
                    f"the lock's location does not come from {resolver}({pname}): writers reaching the table through different path "
                    "spellings (or configurations) lock different files and commit concurrently")
+
+
+def fallback_break_only_when_stale(ctx: Ctx, rid: str = "C19.R11") -> None:
+    ctx.rule(rid, "the O_EXCL fallback lock is broken only when it looks abandoned: every unlink of the lock file in the acquisition "
+             "path is reached only through the true edge of an age comparison `age > <multiple of the timeout>` whose age is the "
+             "clock minus the lock file's mtime (an unconditional / inverted break removes a live holder's lock)", 1)
+    f = ctx.fn("file_lock.FileLock._try_acquire_excl_fallback")
+    g = ctx.cfg(f)
+    sl = ctx.slicer(f)
+    unl = [n for n in g.calls() if n.id in g.reachable() and n.callee is not None and n.callee.kind == "prim"
+           and n.callee.name in ("os.unlink", "os.remove")]
+    for u in unl:
+        ok = False
+        for pol, e, at in facts_at(ctx, f, u):
+            if pol != "true" or not isinstance(e, ast.Compare) or len(e.ops) != 1 or not isinstance(e.ops[0], (ast.Gt, ast.GtE)):
+                continue
+            lo, ro = sl.origins(e.left, at), sl.origins(e.comparators[0], at)
+            aged = any(isinstance(c, ast.Call) and (dotted(c.func) or "").endswith("getmtime") for c in lo["calls"]) and \
+                any(isinstance(c, ast.Call) and (dotted(c.func) or "") in ("time.time", "time.monotonic") for c in lo["calls"])
+            bound = any(nm.endswith("timeout") for nm in ro["names"])
+            if aged and bound:
+                ok = True
+        ctx.ob(rid, f, "stale-lock break is guarded by `age > k * timeout`", u, ok,
+               "the lock file is unlinked only when its mtime is older than a multiple of the timeout" if ok else
+               "the lock file of a holder that may be alive is removed: the next O_EXCL create succeeds - two holders")
+    ctx.ob(rid, f, "fallback break sites enumerated", None, True, f"{len(unl)} unlink site(s)", nontrivial=False)
 
 
 def owner_token_unique(ctx: Ctx, rid: str = "C19.R8") -> None:
